@@ -3,9 +3,10 @@
 All integers decimal; times are seconds on the engine's clock (block time − history start + 1), durations
 seconds, Decs raw 18-decimal integers; owners / denoms / validators are small indexes chosen by the engine.
 
-  reset <now> <unbondingTime> <riskFactor> <supply> <offset> <lastGauge> <lastLockId> v=<i,…> a=<denom:mult,…> d=<denom,…> k=<tokens:shares,…>
+  reset <now> <unbondingTime> <riskFactor> <supply> <offset> <lastGauge> <lastLockId> v=<i,…> a=<denom:mult,…> d=<denom,…> k=<tokens:shares,…> p=<powerReduction>
         new history; `a` = superfluid assets with their current multiplier, `d` = every denom index in use,
-        `k` = tokens and delegator shares (raw Dec) of validator 0, 1, …
+        `k` = tokens and delegator shares (raw Dec) of validator 0, 1, …; `p` = StakingKeeper.PowerReduction, which has
+        to be the SDK constant the model carries (`powerReduction`), else the line is refused
   lock <owner> <denom> <amount> <duration> <single 0|1>     LockupKeeper.CreateLock            -> ok <id>
   addtolock <sender> <id> <amount>                           LockupKeeper.AddTokensToLockByID
   delegate <sender> <id> <val>                               MsgSuperfluidDelegate
@@ -22,6 +23,10 @@ seconds, Decs raw 18-decimal integers; owners / denoms / validators are small in
                                                              (l = classic pool shares, c = concentrated full-range shares)
   slash <val> <TokensFromConsensusPower(power)> <fraction raw Dec> x=<id,…>   StakingKeeper.Slash at the current height -> ok <burnt>
                                                              (x = locks of concentrated shares without a position mapped to them)
+  slashrefill <val> <TokensFromConsensusPower(power)> <fraction raw Dec> x=<id,…> t=<id:amount,…>
+                                                             StakingKeeper.Slash taking ALL tokens of the validator, then
+                                                             LockupKeeper.AddTokensToLockByID(id, amount) by the owner for
+                                                             every lock the slash emptied -> ok <burnt>
 
 result line:  <ok [id] | err:<class> | panic> vl=[val:tokens:shares,…] st=[d.v=stake/shares,…] cn=[id>d.v,…] sy=[id:b|u:d.v:end:dur,…]
               (stake = TokensFromShares(delegation shares).TruncateInt(), shares raw Dec)
@@ -122,7 +127,8 @@ def stripPrefix (p s : String) : Option String :=
 
 def stepSuperfluid (d : DrvState) (op : String) (args : List String) : DrvState × String :=
   match op, args with
-  | "reset", [now, ub, rf, sup, off, lg, ll, v, a, dn, kk] =>
+  | "reset", [now, ub, rf, sup, off, lg, ll, v, a, dn, kk, pr] =>
+    if (stripPrefix "p=" pr).bind String.toInt? ≠ some powerReduction then (d, "bad-op") else
     match [now, ub, rf, sup, off].mapM String.toInt?, lg.toNat?, ll.toNat?,
           (stripPrefix "v=" v).bind parseNatList, (stripPrefix "a=" a).bind parseAssets, (stripPrefix "d=" dn).bind parseNatList,
           (stripPrefix "k=" kk).bind parseVals with
@@ -186,6 +192,10 @@ def stepSuperfluid (d : DrvState) (op : String) (args : List String) : DrvState 
     match v.toNat?, p.toInt?, f.toInt?, (stripPrefix "x=" x).bind parseNatList with
     | some v, some p, some f, some x => finishOpS d (.slash v p f x)
     | _, _, _, _ => (d, "bad-op")
+  | "slashrefill", [v, p, f, x, t] =>
+    match v.toNat?, p.toInt?, f.toInt?, (stripPrefix "x=" x).bind parseNatList, (stripPrefix "t=" t).bind parseAssets with
+    | some v, some p, some f, some x, some t => finishOpS d (.slashRefill v p f x t)
+    | _, _, _, _, _ => (d, "bad-op")
   | "epoch", args =>
     -- the last argument `o=<d.v,…>` is the order in which the store iterates the intermediary accounts
     match args.getLast? with
